@@ -468,7 +468,7 @@ def rule_own_share_home(S, res):
                             from_party = True
             if not from_party:
                 probs.append("the recipient buffer is not selected by the input wire's owner (Input.party)")
-            if si.ranges:
+            if si.ranges and not from_party:
                 probs.append("the recipient ranges over all parties")
         # guarded by party != p_own
         cd = control_deps(b)
